@@ -65,7 +65,7 @@ CHECKS = {
  "C09": {
   "text": "Theorems for every reachable state: handling IGNORED / UNMOUNT / DELETE_SELF / non-recursive MOVE_SELF for a "
           "listed wd removes the entry from both tables (so the path leaves WatchList, Remove reports ErrNonExistentWatch, "
-          "later records for that wd are silent and change nothing, and a re-Add creates a fresh entry); ATTRIB alone "
+          "later records for that wd are silent and change nothing, and a re-Add creates a fresh entry: readd_after_end, composed from self_gone_ends_watch' and C08's first-Add theorem); ATTRIB alone "
           "(unlink while open) changes no table and reports Chmod; DELETE_SELF reports Remove iff the parent path is not "
           "listed at that moment. The gap to the property ('unless the parent already did') is proved as a witness "
           "(late_parent_witness) and reproduced on the implementation: known finding F5. " + _INJ + _LIVE,
